@@ -379,7 +379,7 @@ func TestC16(t *testing.T) {
 		}
 		c.What = "perturbed-" + w
 	}
-	rapidCheck(t, "real", tierN(110, 5000), func(rt *rapid.T) {
+	rapidCheck(t, "real", tierN(250, 5000), func(rt *rapid.T) {
 		base := rapid.SampledFrom([]string{"A1", "B1"}).Draw(rt, "base")
 		c := genC16(rt, plonkShape{Real: base}, rapid.Bool().Draw(rt, "real_openings"))
 		c.Mode = int(eng.ModeNative)
@@ -392,7 +392,7 @@ func TestC16(t *testing.T) {
 		}
 		s.exec(rt, "plonk", c, "real-description/"+c.What)
 	})
-	rapidCheck(t, "synthetic", tierN(420, 20000), func(rt *rapid.T) {
+	rapidCheck(t, "synthetic", tierN(1000, 20000), func(rt *rapid.T) {
 		c := genC16(rt, genSynthShape().Draw(rt, "shape"), false)
 		c.Mode = int(genMode().Draw(rt, "mode"))
 		switch rapid.IntRange(0, 4).Draw(rt, "kind") {
